@@ -33,6 +33,7 @@ type Claims struct {
 	HarnessRace bool     // run the harness under the Go race detector
 	OnlyKinds   []string // when set, only obligations of these kinds are claimed
 	Notes       []string
+	Includes    []string // properties whose proved contracts this property depends on: their checks (obligations only) are re-run as part of this check
 }
 
 func readClaims(path string) (*Claims, error) {
@@ -84,6 +85,8 @@ func readClaims(path string) (*Claims, error) {
 			c.Bounded = append(c.Bounded, rest)
 		case "note":
 			c.Notes = append(c.Notes, rest)
+		case "include":
+			c.Includes = append(c.Includes, rest)
 		}
 	}
 	return c, sc.Err()
@@ -240,6 +243,7 @@ func cmdCheck(args []string) int {
 	repo := fs.String("repo", "/repo", "repository")
 	replay := fs.String("replay", "", "re-run the replay recorded in this file")
 	par := fs.Int("j", 5, "parallel obligations")
+	asIncluded := fs.Bool("as-included", false, "internal: run as a dependency of another property's check (obligations only, no tier escalation)")
 	writeClaims := fs.Bool("write-claims", false, "development: (re)write the claim lines from the currently discharged obligations")
 	if len(args) < 1 {
 		fmt.Fprintln(os.Stderr, "usage: govc check <ID> [--tier quick|thorough]")
@@ -582,6 +586,86 @@ func cmdCheck(args []string) int {
 			fmt.Printf("VIOLATION property=%s replay=%s\n", id, p)
 		}
 	}
+	// dependencies: the contracts proved under the included properties are used at
+	// call sites here; a change that breaks one of them breaks this property's
+	// argument too. Each included check runs as its own process (same obligations,
+	// same cache entries as that property's own check), quick tier, into a scratch
+	// output directory; its failed obligations are reported as violations of this
+	// property.
+	var included []map[string]interface{}
+	if !*asIncluded {
+		seen := map[string]bool{id: true}
+		queue := append([]string(nil), claims.Includes...)
+		for len(queue) > 0 {
+			inc := queue[0]
+			queue = queue[1:]
+			if seen[inc] {
+				continue
+			}
+			seen[inc] = true
+			if ic, err := readClaims(filepath.Join(root, "claims", inc+".txt")); err == nil {
+				queue = append(queue, ic.Includes...)
+				for _, a := range ic.Assumptions {
+					claims.Assumptions = append(claims.Assumptions, "[via "+inc+"] "+a)
+				}
+			}
+			scratch, _ := os.MkdirTemp("", "govc-inc-")
+			exe, _ := os.Executable()
+			cmd := exec.Command(exe, "check", inc, "--tier", "quick", "--repo", *repo, "--as-included", "-j", strconv.Itoa(*par))
+			cmd.Env = append(os.Environ(), "VERIF_OUT="+scratch, "VERIF_ROOT="+root, "VERIF_TIER=quick")
+			out, _ := cmd.CombinedOutput()
+			code := 0
+			if cmd.ProcessState != nil {
+				code = cmd.ProcessState.ExitCode()
+			}
+			rec := map[string]interface{}{"property": inc, "exit": code}
+			var iev struct {
+				Coverage struct {
+					Obligations int                 `json:"obligations"`
+					Discharged  int                 `json:"discharged"`
+					SolverTime  float64             `json:"solver_time_s"`
+					Funcs       []string            `json:"functions_under_contract"`
+					ByBackend   map[string]int      `json:"discharged_by_backend"`
+				} `json:"coverage"`
+			}
+			if data, err := os.ReadFile(filepath.Join(scratch, "evidence", inc+".json")); err == nil && json.Unmarshal(data, &iev) == nil {
+				rec["obligations"] = iev.Coverage.Obligations
+				rec["discharged"] = iev.Coverage.Discharged
+				rec["solver_time_s"] = iev.Coverage.SolverTime
+				rec["functions_under_contract"] = iev.Coverage.Funcs
+				rec["discharged_by_backend"] = iev.Coverage.ByBackend
+			}
+			var lines []string
+			for _, l := range strings.Split(string(out), "\n") {
+				if strings.HasPrefix(l, "VIOLATION") || strings.HasPrefix(l, "FAILED") || strings.HasPrefix(l, "UNDECIDED") || strings.HasPrefix(l, "FAILING-INPUT") {
+					lines = append(lines, l)
+				}
+			}
+			rec["report"] = lines
+			included = append(included, rec)
+			if code == 1 {
+				violations++
+				exit = 1
+				found := false
+				for _, l := range lines {
+					if strings.HasPrefix(l, "VIOLATION") && !strings.HasSuffix(strings.TrimSpace(l), "no-failing-input-found") {
+						found = true
+					}
+				}
+				p := writeReplay("included_"+inc, map[string]interface{}{"property": id, "obligation": "included:" + inc, "failing_input_found": found,
+					"explanation": "this property's argument uses the contracts proved under " + inc + "; that check fails on this tree", "included_check_output": tail(string(out), 8000)})
+				if found {
+					fmt.Printf("VIOLATION property=%s replay=%s\n", id, p)
+				} else {
+					fmt.Printf("VIOLATION property=%s replay=%s no-failing-input-found\n", id, p)
+				}
+			} else if code != 0 {
+				fmt.Printf("UNDECIDED reason=included-check-error %s exit=%d\n", inc, code)
+				undecided++
+			}
+			os.RemoveAll(scratch)
+		}
+	}
 	// evidence
 	level := claims.Level
 	if undecided > 0 && level == "proof" {
@@ -638,6 +722,9 @@ func cmdCheck(args []string) int {
 		"int_model":               "Go int is mathematical Int; int32 and uint8 wrap (machine arithmetic)",
 		"dropped_by_translation":  "hclog logger calls (arguments still evaluated); termination only where a decreases clause is given; append modelled as reallocation",
 	}
+	if len(included) > 0 {
+		cov["included_checks"] = included
+	}
 	if harnessRan {
 		cov["bounded_harness"] = map[string]interface{}{"name": claims.Harness, "ok": harnessOK, "wall_s": round3(harnessT), "labelled": "bounded", "stand_ins": claims.Bounded, "output_tail": tail(harnessOut, 1500)}
 	}
@@ -651,7 +738,7 @@ func cmdCheck(args []string) int {
 	os.MkdirAll(filepath.Join(outRoot, "evidence"), 0o755)
 	data, _ := json.MarshalIndent(ev, "", " ")
 	os.WriteFile(filepath.Join(outRoot, "evidence", id+".json"), data, 0o644)
-	fmt.Printf("%s tier=%s obligations=%d discharged=%d failed=%d known=%d undecided=%d unclaimed=%d wall=%.1fs\n", id, *tier, len(ds), discharged, len(failed), len(knownLines), undecided, len(unclaimed), time.Since(start).Seconds())
+	fmt.Printf("%s tier=%s obligations=%d discharged=%d failed=%d known=%d undecided=%d unclaimed=%d included=%d wall=%.1fs\n", id, *tier, len(ds), discharged, len(failed), len(knownLines), undecided, len(unclaimed), len(included), time.Since(start).Seconds())
 	return exit
 }
 
